@@ -168,23 +168,29 @@ impl Monitor for C16 {
         "cases = (pattern biased to nullable and barely non-nullable bodies, anchors-only patterns, optional groups, back-references to possibly-empty groups; flags; input); oracle: does the pattern match the zero-length string according to the match relation (set semantics on the empty input); replace_all and analyze on any input and tokenize on non-empty input must return Err(MatchesEmptyString) iff so; tokenize('') yields no tokens; Ok results contain no zero-length match. Non-trivial: AST >= 2 nodes; both oracle verdicts are counted."
     }
     fn check(&self, c: &Case, obs: &mut Obs) -> Outcome {
-        let ast = match ast_of(c) {
-            Some(a) => a,
-            None => return Outcome::Inconclusive("no_ast"),
-        };
-        let flags = Flags::parse(&c.flags);
-        let readings = Model::readings(&ast, flags);
-        let mut verdicts = vec![];
-        for m in &readings {
-            match m.nullable_dynamic() {
-                Ok(b) => verdicts.push(b),
-                Err(_) => return Outcome::Inconclusive("oracle_budget"),
+        let (nullable, size) = if c.flags.contains('q') {
+            // a literal pattern matches the empty string iff it is empty
+            obs.count("literal_patterns");
+            (c.pattern.is_empty(), 2)
+        } else {
+            let ast = match ast_of(c) {
+                Some(a) => a,
+                None => return Outcome::Inconclusive("no_ast"),
+            };
+            let flags = Flags::parse(&c.flags);
+            let readings = Model::readings(&ast, flags);
+            let mut verdicts = vec![];
+            for m in &readings {
+                match m.nullable_dynamic() {
+                    Ok(b) => verdicts.push(b),
+                    Err(_) => return Outcome::Inconclusive("oracle_budget"),
+                }
             }
-        }
-        if verdicts.iter().any(|v| *v != verdicts[0]) {
-            return Outcome::Inconclusive("capture_semantics_disputed");
-        }
-        let nullable = verdicts[0];
+            if verdicts.iter().any(|v| *v != verdicts[0]) {
+                return Outcome::Inconclusive("capture_semantics_disputed");
+            }
+            (verdicts[0], ast.size())
+        };
         let re = match compile_case(c) {
             Ok(r) => r,
             Err(o) => return o,
@@ -242,10 +248,10 @@ impl Monitor for C16 {
                 return Outcome::Violated(vec![Finding::new("zero_length_match_reported", "analyze reports an empty Match entry".to_string(), "no zero-length match")]);
             }
         }
-        if ast.size() >= 2 {
+        if size >= 2 {
             obs.nontrivial(c.key());
         }
-        if obs.want_sample() && ast.size() >= 3 {
+        if obs.want_sample() && size >= 3 {
             obs.sample(c.to_json().with("oracle_matches_empty", J::Bool(nullable)).with("replace_all", J::s(&format!("{:?}", rep))));
         }
         Outcome::Held
@@ -291,10 +297,25 @@ impl Monitor for C16 {
             }
         }
         desc.set("random_patterns_this_shard", J::u(n));
+        // (c) literal patterns (flag q, also combined with i m s x) incl. the empty literal, and the empty pattern
+        if w.shard == 0 {
+            for p in ["", "a", "(", "a*", " ", "^", "$", "()", "\u{10400}"] {
+                for f in ["q", "qi", "qx", "qm", "qs", "iq"] {
+                    for inp in ["", "a", "abc", "a*(", " "] {
+                        emit(Case::raw(p, f, inp));
+                    }
+                }
+            }
+            for f in ["", "i", "m", "s", "x", "ms"] {
+                for inp in ["", "a", "ab"] {
+                    emit(Case::raw("", f, inp));
+                }
+            }
+        }
         desc
     }
     fn corpus(&self) -> Vec<Case> {
-        raw(&[("a*", "", "b"), ("a?", "", "a"), ("^$", "", "a"), ("^", "m", "a\nb"), ("()\\1{2}", "", "a"), ("(?:a(A))*\\1", "", "Aa"), ("(a)|\\1", "", "b"), ("a|", "", "a"), ("(?:a|$)", "", "ab"), ("a", "", ""), ("$", "m", "\n")])
+        raw(&[("", "q", "abc"), ("", "", "abc"), ("a", "q", ""), ("a*", "", "b"), ("a?", "", "a"), ("^$", "", "a"), ("^", "m", "a\nb"), ("()\\1{2}", "", "a"), ("(?:a(A))*\\1", "", "Aa"), ("(a)|\\1", "", "b"), ("a|", "", "a"), ("(?:a|$)", "", "ab"), ("a", "", ""), ("$", "m", "\n")])
     }
 }
 
